@@ -35,6 +35,7 @@ struct NodeSpec
 {
 	int fam = 0;            // 0: one v4, 1: one v6, 2: v4 + v6, 3: two v4
 	int nat_ext = -1;       // >= 0: outgoing route passes a NAT with external address 99.(30+ext).(ext+1).200
+	int nat_ext2 = -1;      // >= 0 (and nat_ext >= 0): a second, outer NAT at the end of the outgoing route (carrier-grade NAT behind a home NAT); external address nat_addr(8 + nat_ext2)
 	std::vector<QSpec> qout, qin;
 };
 
@@ -98,6 +99,10 @@ struct Topology
 				// the NAT sits on the routes of the node's IPv4 addresses only; its IPv6 address (dual-stack nodes) stays public
 				if (t.nodes[std::size_t(r.a[0])].fam != 1)
 					t.nodes[std::size_t(r.a[0])].nat_ext = int(r.a[1]);
+			}
+			else if (r.name == "nat2" && r.a.size() >= 2 && r.a[0] >= 0 && r.a[0] < N && r.a[1] >= 0 && r.a[1] < 8)
+			{
+				if (t.nodes[std::size_t(r.a[0])].fam != 1) t.nodes[std::size_t(r.a[0])].nat_ext2 = int(r.a[1]);
 			}
 			else if ((r.name == "qout" || r.name == "qin") && r.a.size() >= 4 && r.a[0] >= 0 && r.a[0] < N)
 			{
@@ -358,6 +363,8 @@ struct World : sim::configuration
 			r.append(std::make_shared<sim::nat>(Topology::nat_addr(topo.nodes[std::size_t(n)].nat_ext)));
 		int idx = 0;
 		for (auto const& q : topo.nodes[std::size_t(n)].qout) append_queue(r, q, 0, n, -1, k, idx++);
+		if (topo.nodes[std::size_t(n)].nat_ext >= 0 && topo.nodes[std::size_t(n)].nat_ext2 >= 0 && ip.is_v4())
+			r.append(std::make_shared<sim::nat>(Topology::nat_addr(8 + topo.nodes[std::size_t(n)].nat_ext2)));
 		out_routes[ip] = r;
 		return r;
 	}
@@ -384,6 +391,7 @@ struct World : sim::configuration
 	address visible_addr(int n, int k = 0) const
 	{
 		address a = addr(n, k);
+		if (topo.nodes[std::size_t(n)].nat_ext >= 0 && topo.nodes[std::size_t(n)].nat_ext2 >= 0 && a.is_v4()) return Topology::nat_addr(8 + topo.nodes[std::size_t(n)].nat_ext2); // the outermost NAT is what the world sees
 		if (topo.nodes[std::size_t(n)].nat_ext >= 0 && a.is_v4()) return Topology::nat_addr(topo.nodes[std::size_t(n)].nat_ext);
 		return a;
 	}
